@@ -2,6 +2,7 @@ package main
 
 import (
 	"fmt"
+	"go/types"
 	"os"
 	"regexp"
 	"sort"
@@ -16,7 +17,46 @@ func (e *Engine) loadAllContracts(extraDir string) error {
 	if err := e.loadRepoContracts(); err != nil {
 		return err
 	}
-	return e.loadExtraContracts(extraDir)
+	if err := e.loadExtraContracts(extraDir); err != nil {
+		return err
+	}
+	// vacuity guard: a contract in a loaded repository package that matches no function is reported
+	keys := map[string]bool{}
+	for f := range e.allFuncs {
+		keys[e.fnKey(f)] = true
+	}
+	for k, c := range e.contracts {
+		if strings.HasPrefix(c.File, e.repo) && !keys[k] && !isIfaceKey(e, k) {
+			fmt.Fprintf(os.Stderr, "WARNING: contract %s (%s:%d) matches no function in configuration %s\n", k, relPath(c.File), c.Line, e.config)
+			e.orphanContracts = append(e.orphanContracts, k)
+		}
+	}
+	return nil
+}
+
+// isIfaceKey: keys of the form (pkg.Iface).Method name interface methods (no function body to match).
+func isIfaceKey(e *Engine, k string) bool {
+	if !strings.HasPrefix(k, "(") || strings.HasPrefix(k, "(*") {
+		return false
+	}
+	i := strings.LastIndex(k, ").")
+	if i < 0 {
+		return false
+	}
+	tn := k[1:i]
+	j := strings.LastIndex(tn, ".")
+	if j < 0 {
+		return false
+	}
+	for _, sp := range e.prog.AllPackages() {
+		if sp.Pkg.Path() == tn[:j] {
+			if obj := sp.Pkg.Scope().Lookup(tn[j+1:]); obj != nil {
+				_, isI := obj.Type().Underlying().(*types.Interface)
+				return isI
+			}
+		}
+	}
+	return false
 }
 
 func (e *Engine) selectFuncsMulti(res []string, seen map[string]bool) []*ssa.Function {
